@@ -850,6 +850,14 @@ static void mode_run(const Case &c) {
       if (monitors) mon.boundary(vm);
     }
     bool done = !stopped_by_monitor && vm.isDone();
+    if (done && monitors) {
+        // the loop above never dispatches the final HALT itself (isDone() is true as soon as the instruction pointer
+        // stands on it): dispatch it, twice, and look at the state again
+        vm.executeSingle();
+        mon.boundary(vm);
+        vm.executeSingle();
+        mon.boundary(vm);
+    }
     unsigned long long dg = fnv(fnv(vdigest(vm), sdigest(vm)), (unsigned long long)steps);
     if (rep == 0) {
       first_digest = dg;
